@@ -163,7 +163,54 @@ func (h *hgen) client() {
 	h.ops = append(h.ops, fmt.Sprintf("c:%s:%s:%s", op, vh.HS(name), arg))
 }
 
+// genGone: messages whose content can no longer be opened — the file vanished (x), or a removal completes
+// between look-up and open (y) — asked for through every endpoint. Afterwards only GETs and deliveries.
+func genGone(g *vh.Gen) {
+	for i := 0; i < g.N(40, 1200); i++ {
+		naming, pool := "local", []string{"alpha", "a.b", "x_y", "a&b", "q?x"}
+		h := &hgen{g: g, naming: naming, pool: pool, adds: map[string]int{}}
+		for j := 0; j < 2+g.Intn(4); j++ {
+			h.add()
+		}
+		get := func(mb string, k int) {
+			tmpl := 1 + g.Intn(6)
+			id := fmt.Sprintf("k%d", k)
+			if g.Chance(0.15) {
+				id = "latest"
+			}
+			h.ops = append(h.ops, fmt.Sprintf("r:GET:%d:%s:%s:tl%s:%s:%s", tmpl, vh.HS(url.QueryEscape(mb)), vh.HS(id), g.Pick("0", "1", "2"), vh.HS("0"), vh.HS("a.bin")))
+		}
+		for j := 0; j < 3+g.Intn(8); j++ {
+			mb := h.canon()
+			for h.adds[mb] == 0 {
+				mb = h.canon()
+			}
+			k := g.Intn(h.adds[mb])
+			switch {
+			case g.Chance(0.3):
+				h.ops = append(h.ops, fmt.Sprintf("x:%s:%d", vh.HS(mb), k))
+				for t := 0; t < 1+g.Intn(3); t++ {
+					get(mb, k)
+				}
+			case g.Chance(0.5):
+				h.ops = append(h.ops, fmt.Sprintf("y:%d:%s:%d:tl0", 1+g.Intn(6), vh.HS(mb), k))
+			case g.Chance(0.5):
+				get(mb, k)
+			case g.Chance(0.5):
+				h.ops = append(h.ops, fmt.Sprintf("r:GET:0:%s:%s:tl0:%s:%s", vh.HS(url.QueryEscape(mb)), vh.HS("k0"), vh.HS("0"), vh.HS("a.bin")))
+			default:
+				h.add()
+			}
+		}
+		ops := strings.Join(h.ops, ",")
+		base := g.Pick("", "", "pre")
+		g.Emit("hist", "mem", naming, vh.HS(base), ops)
+		g.Emit("hist", "file", naming, vh.HS(base), ops)
+	}
+}
+
 func gen(g *vh.Gen) {
+	genGone(g)
 	n := g.N(300, 10000)
 	for i := 0; i < n; i++ {
 		naming := "local"
